@@ -23,5 +23,7 @@ open SamVerif.Useful
 #print axioms cex_fuel_bound
 #print axioms checker_match_decided
 #print axioms checker_iflet_decided
+#print axioms replayed_match_exact
+#print axioms replayed_iflet_exact
 #print axioms inhabited_certificate
 #print axioms useful_iff_counterexample
